@@ -124,6 +124,24 @@ def syntactic_sinks(kind):
     add("error-value", "error c")
     add("catch-value", "do error c; catch c2 'no'; catch c 'yes'; end")
     add("json-ish", "string([c, <<<1 => c>>>])")
+    # comprehensions whose result or side effects depend on the order in
+    # which the source is enumerated (colliding keys, output, state)
+    add("map-compr-colliding", "<<<length(string(x)) => x for x in c>>>")
+    add("map-compr-colliding2", "<<<substr(string(x), 0, 1) => x "
+        "for x in c>>>")
+    add("set-compr-effect", "<<print(string(x) + '|') for x in c>>")
+    add("list-compr-effect", "[print(string(x) + '|') for x in c]")
+    add("map-compr-effect", "<<<string(x) => print(string(x) + '|') "
+        "for x in c>>>")
+    add("compr-state", "do def acc = []; def r = <<acc !> append(x) "
+        "!> length() for x in c>>; acc; end")
+    add("set-compr-product-effect", "<<print(string(x) + string(y) + '|') "
+        "for x in c for y in c2>>")
+    add("set-compr-parallel-effect", "<<print(string(x) + string(y) + '|')"
+        " for x in c also for y in c2>>")
+    add("list-compr-product-effect", "[print(string(x) + string(y) + '|') "
+        "for x in c for y in c2]")
+    add("compr-first-error", "[1 / (length(string(x)) - 2) for x in c]")
     # c3 is the same logical container as c, always built in one fixed
     # order: equal containers must be ONE element / ONE key however built
     add("dedup-set", "[length(<<c, c3>>), c3 in <<c>>, c in [c3], c == c3]")
@@ -146,6 +164,14 @@ def syntactic_sinks(kind):
         add("for-destructured",
             "for [k, v] in entries c do print(string(k) + '=' + string(v) "
             "+ '|'); end")
+        add("map-compr-keys-colliding",
+            "<<<length(string(k)) => k for k in keys c>>>")
+        add("set-compr-keys-effect",
+            "<<print(string(k) + '|') for k in keys c>>")
+        add("map-compr-values-effect",
+            "<<<string(v) => print(string(v) + '|') for v in values c>>>")
+        add("set-compr-entries-effect",
+            "<<print(string(e) + '|') for e in entries c>>")
         add("compr-keys", "[k for k in keys c]")
         add("compr-values", "[v for v in values c]")
         add("compr-entries", "[e for e in entries c]")
